@@ -2,7 +2,7 @@
 //
 //	gen2coq -repo <tree under test> -errv <coq/Model/Err.v> -out <dir>
 //
-// writes <dir>/ErrTables.v, <dir>/Consts.v and <dir>/summary.json. It exits 0 whenever the files were
+// writes <dir>/ErrTables.v, <dir>/Consts.v, <dir>/Atomic.v and <dir>/summary.json. It exits 0 whenever the files were
 // written — also when shapes were not recognised (the files then say so).
 package main
 
@@ -30,12 +30,13 @@ func main() {
 	}
 	res := Translate(*repo, *errv)
 	et, cs := safeRender(res)
+	at := safeRenderAtomic(res)
 	if err := os.MkdirAll(*out, 0o755); err != nil {
 		fmt.Fprintln(os.Stderr, "gen2coq:", err)
 		os.Exit(2)
 	}
 	js, _ := json.MarshalIndent(res, "", " ")
-	for name, text := range map[string]string{"ErrTables.v": et, "Consts.v": cs, "summary.json": string(js)} {
+	for name, text := range map[string]string{"ErrTables.v": et, "Consts.v": cs, "Atomic.v": at, "summary.json": string(js)} {
 		if err := os.WriteFile(filepath.Join(*out, name), []byte(text), 0o644); err != nil {
 			fmt.Fprintln(os.Stderr, "gen2coq:", err)
 			os.Exit(2)
@@ -43,6 +44,12 @@ func main() {
 	}
 	fmt.Printf("gen2coq: enum=%v srv=%v cli=%v consts=%v routes=%v\n", res.EnumOK(), res.SrvOK(), res.CliOK(), res.ConstOK(), res.RouteOK())
 	fmt.Printf("gen2coq: closer order %v %v\n", res.CloserOrder, res.CloserReasons)
+	fmt.Printf("gen2coq: atomic=%v\n", res.AtomicOK())
+	if res.Atomic != nil {
+		for _, r := range res.Atomic.Reasons {
+			fmt.Println("  not recognised: atomic: " + strings.ReplaceAll(r, "\n", " "))
+		}
+	}
 	for _, r := range append(append(append(append(append([]string{}, res.EnumReasons...), res.SrvReasons...), res.CliReasons...), res.ConstReasons...), res.RouteReasons...) {
 		fmt.Println("  not recognised: " + strings.ReplaceAll(r, "\n", " "))
 	}
@@ -60,4 +67,14 @@ func safeRender(res *Result) (et, cs string) {
 		}
 	}()
 	return RenderErrTables(res), RenderConsts(res)
+}
+
+// safeRenderAtomic never panics: a failure of the renderer yields the degenerate file.
+func safeRenderAtomic(res *Result) (at string) {
+	defer func() {
+		if r := recover(); r != nil {
+			at = RenderAtomic(&Result{Repo: res.Repo, Atomic: &Atomic{Reasons: []string{fmt.Sprintf("renderer failed: %v", r)}}})
+		}
+	}()
+	return RenderAtomic(res)
 }
